@@ -587,6 +587,33 @@ theorem differing_field_different_key (o : HashOpts) (a b : ReqF) (hc : o.ignore
   have hcont := hag.2.2.2.2.2.2.1 hc
   exact hd (((content_agree_cases o a b).2.1 hp ha hb).mp hcont)
 
+/-- **header lookup inside the model** (`Headers.get`): the configured header names are matched case-insensitively, and
+    repeated fields are folded in order with ", " — a request without the header has the value `None`. -/
+theorem header_lookup_spec (hs : List (Bytes × Bytes)) (n n' : Bytes) :
+    (asciiLower n = asciiLower n' → hdrGet hs n = hdrGet hs n') ∧
+    (hdrGet hs n = none ↔ ∀ p ∈ hs, asciiLower p.1 ≠ asciiLower n) ∧
+    (∀ v w, hdrGet [(n, v), (n', w)] n = if asciiLower n' = asciiLower n then some (v ++ [44, 32] ++ w) else some v) := by
+  refine ⟨fun h => by simp [hdrGet, h], ?_, ?_⟩
+  · unfold hdrGet
+    constructor
+    · intro h p hp
+      cases hf : (hs.filter (fun p => asciiLower p.1 == asciiLower n)).map (·.2) with
+      | nil =>
+        have hf' : hs.filter (fun p => asciiLower p.1 == asciiLower n) = [] := by simpa using hf
+        intro he
+        have : p ∈ hs.filter (fun p => asciiLower p.1 == asciiLower n) := List.mem_filter.mpr ⟨hp, by simp [he]⟩
+        rw [hf'] at this; simp at this
+      | cons v vs => rw [hf] at h; simp at h
+    · intro h
+      have : hs.filter (fun p => asciiLower p.1 == asciiLower n) = [] := by
+        rw [List.filter_eq_nil_iff]
+        intro p hp; simpa using h p hp
+      simp [this]
+  · intro v w
+    by_cases h : asciiLower n' = asciiLower n
+    · simp [hdrGet, h, joinCommaSpace]
+    · simp [hdrGet, h, joinCommaSpace]
+
 /-- **the property with the real key**: instantiate the replay model with `keyOf` (the transcription of `_hash`'s
     field selection).  After ANY history of loads / adds / clears / option changes / requests and for EVERY option
     combination, a request `q` is answered with recording `r` exactly when `r` is the first pending recording, in
